@@ -147,6 +147,32 @@ func genCaret(run *vlib.Run, r *vlib.Rand, tier string) {
 	for _, p := range caretPairs {
 		emit(run, "!"+vlib.Line(vlib.Atom("caret"), vlib.Int(int(p[0])), vlib.Int(int(p[1]))), true, "caret")
 	}
+	// the signed extremes of the slope fields: rise or run at +-32767, +-32766
+	// against small, medium and near-extreme partners (the denominator bound of
+	// the rational approximation is tight exactly there)
+	ext := []int{32767, -32767, 32766, -32766}
+	for k := 0; k < vlib.Count(tier, 240, 4000); k++ {
+		e := vlib.Pick(r, ext)
+		var o int
+		switch r.Intn(4) {
+		case 0:
+			o = r.Range(-40, 40)
+		case 1:
+			o = r.Range(-2000, 2000)
+		case 2:
+			o = vlib.Pick(r, []int{1, -1}) * (32767 - r.Intn(40))
+		default:
+			o = r.Range(-32767, 32767)
+		}
+		a, b := e, o
+		if r.Intn(3) == 0 {
+			a, b = o, e
+		}
+		if a == 0 && b == 0 {
+			b = 1
+		}
+		emit(run, "!"+vlib.Line(vlib.Atom("caret"), vlib.Int(a), vlib.Int(b)), true, "caret", "caret:extreme")
+	}
 	for k := 0; k < vlib.Count(tier, 200, 5000); k++ {
 		a, b := r.Range(-32767, 32767), r.Range(-32767, 32767)
 		if r.Bool() {
